@@ -293,6 +293,10 @@ def run(ses, rep):
     c14.confirm(rep, flagged, SCENARIOS, KIND2SCEN, "C13")
 
 
+def fallback(rep):
+    c14.fallback_scenarios(rep, SCENARIOS, "C13")
+
+
 def replay(path):
     import json
     d = json.load(open(path))
